@@ -671,6 +671,15 @@ def gen_small(rng, tier):
     sec = struct.pack("<IIHHHH", 0, 0, 0, 0, 0, 1) + struct.pack("<II", 1, HI | 24) + struct.pack("<IIHHHH", 0, 0, 0, 0, 0, 2) + struct.pack("<II", 2, HI | 0) + struct.pack("<II", 3, HI | 24)
     pre = "res_raw 0 %s" % hx(sec + bytes(64))
     cases.append(std_ops(pre, "fail") + ["%s find %s" % (pre, hx(b"/#1/#2/#1/#3"))])
+    # k entries sharing one empty sub-directory: accepted iff the unfolded count k + 1 fits len / 16
+    for k in (1, 2, 3, 5):
+        sec = bytearray(struct.pack("<IIHHHH", 0, 0, 0, 0, 0, k))
+        for i in range(k):
+            sec += struct.pack("<II", i + 1, HI | (16 + 8 * k))
+        sec += bytes(16)
+        for pad in (0, 8, 16, 64):
+            pre = "res_raw 0 %s" % hx(bytes(sec) + bytes(pad))
+            cases.append(std_ops(pre, "ok" if k + 1 <= (len(sec) + pad) // 16 else "fail"))
     # random bytes
     nrand = 60 if tier == "quick" else 3000
     for _ in range(nrand):
